@@ -42,6 +42,18 @@ CHECKS = {
         technique="Coq proof (geometric sums / orthogonality over the frequency-set representation) + float correspondence + slice translator/bridge",
         design="6/C03",
     ),
+    "C20": dict(
+        text="Machine-checked Coq theorems over exact rationals, for fields of any size and ANY permutation that sorts the base field non-increasingly (numpy's argsort enters as a hypothesis, not as an algorithm): the rescaled value at a cell equals the sum of f over the cells with strictly larger g plus the sum over some of the cells tied with it (hence the two-sided bound of the property), lies in [0, total - f_c] (so < total wherever f_c > 0; the text's '[0,total)' is attained as = total at a zero cell that is last in the order, shown by a proved example), drops by at least f_b from b to a when g_a < g_b, is unchanged by strictly increasing transformations of g and follows a common permutation of the cells (any two sorting orders agree exactly at untied cells); the percentile result is the least count of top cells whose sum reaches p*total - least also among ALL sets of cells -, level is their minimum and every other cell is <= level, area = (k+1)*cell, area/level monotone in p, scaling f scales level and keeps area. The model is tied to utils.get_source_area, the base functions and extract_percentile_contour by exact differential execution on dyadic inputs (vm_compute over Q), 2-D/3-D fields, 1-D/2-D/3-D coordinate arrays.",
+        note="All 13 theorems closed under the global context (no axioms), none is partial. Hand-written model; the tie is differential execution (about 925 evaluations quick, 15000 thorough), not a proof about Python; IEEE rounding is not covered by the theorems; source_area_sector and oblique-wind upwind/crosswind are covered only through the order their values induce. get_source_area is modelled as repaired by fix_C20.diff (result allocated in the dtype of the cumulative sums); on the unrepaired tree an integer-typed base field g truncates the result to integers and the check reports VIOLATION (signature get_source_area:integer-g-dtype-truncation).",
+        technique="Coq proof (list induction, Permutation/NoDup reasoning, lra over Q; numpy's binary search proved equal to the linear specification) + exact model/implementation correspondence on dyadic inputs evaluated by vm_compute, the concrete np.argsort order passed as data and re-checked in Coq to be a sorting permutation + independent O(n^2) exact-integer brute-force oracle on the real code",
+        design="6/C20",
+    ),
+    "C15": dict(
+        text="Machine-checked Coq theorems about Model/Cache.v (the repaired cache.py plus the get/solve/put flow of solver.py): key completeness; transparency for every history of requests including calls killed at any write operation and any initial store with genuine readable entries; same-key repeat is a hit without a solver run after any intermediate history (default halo = explicit max(xmax,ymax)); every prefix of the write sequence leaves the final path unchanged or complete, an unreadable entry is a miss and is replaced. Refutation witnesses for the original key/write logic. Model tied to the source by exact differential execution of hit/miss traces, solver-run counts and stored key sets.",
+        note="Hand-written model; tie is differential execution, not a proof about Python. SHA-256 injectivity, os.replace atomicity, np.load rejecting incomplete files, C04 footprint_shape_only and halo-only-through-resolved-halo are hypotheses; the last three are exercised on every run. Theorems closed under the global context.",
+        technique="Coq proof (finite-map lemmas, induction over histories and write-op prefixes, vm_compute witnesses) + exact model/implementation correspondence over one-argument-variation histories, cross-process reuse, killed runs and every byte-truncation point",
+        design="6/C15",
+    ),
 }
 
 NOT_YET = "check not built yet in this round of work (planned in DESIGN.md section 6); no claim is made"
